@@ -45,6 +45,7 @@ class Ctx:
         self.not_decided = []    # clauses stated as not decided
         self.notes = []
         self.selftests = []      # (rule, name, fired: bool)
+        self.floor_errors = []   # floors not met (fail closed at the end unless a violation was decided)
 
     # -- recording
     def ok(self, rule, key, loc, detail=""):
@@ -79,13 +80,16 @@ class Ctx:
         # notice a rule that has gone blind, not to freeze the number of sites.
         if min_decided > 3:
             min_decided = max(3, int(min_decided * 0.6))
+        # a floor that is not met does not stop the other rules: a change that breaks a property often
+        # also removes instances (the guard that is gone was one).  The check fails closed at the end
+        # (exit 2) unless a rule has decided a violation, which is then what is reported (exit 1)
         if n < min_decided:
-            raise CheckError("rule %s decided only %d instances (floor %d): anchors moved or "
-                             "an idiom is no longer recognised" % (rule, n, min_decided))
+            self.floor_errors.append("rule %s decided only %d instances (floor %d): anchors moved or "
+                                     "an idiom is no longer recognised" % (rule, n, min_decided))
         if u > max_unknown:
             us = [o.key for o in self.obs if o.rule == rule and o.verdict == "unknown"]
-            raise CheckError("rule %s: %d unknown instances (max %d): %s" %
-                             (rule, u, max_unknown, ", ".join(us[:8])))
+            self.floor_errors.append("rule %s: %d unknown instances (max %d): %s" %
+                                     (rule, u, max_unknown, ", ".join(us[:8])))
 
     def anchor(self, path):
         try:
@@ -152,6 +156,12 @@ def run_check(prop, tier="quick", replay=None):
             print("KNOWN-FINDING: property=%s %s %s" % (prop, o.key, known_keys[o.key]["what_fails"]))
         else:
             new.append(o)
+    if ctx.floor_errors and not new:
+        for fe in ctx.floor_errors:
+            print("CHECK-ERROR property=%s %s" % (prop, fe))
+        return 2
+    for fe in ctx.floor_errors:
+        print("  note: %s (reported together with the violation below)" % fe)
     os.makedirs(VIOL_DIR, exist_ok=True)
     if not replay:
         for fn_ in os.listdir(VIOL_DIR):
